@@ -21,6 +21,12 @@ MAX_SID = 160
 LEAF_KEYS = ["x", "x", "q", "up", "down", "left", "right", "tab", "home", "end", "page down", "page up", "enter", "j"]
 NAV_KEYS = ["up", "down", "left", "right", "page up", "page down", "home", "end", "tab", "shift tab"]
 DECOR_UNSEL = ["disable", "disable", "disable_attrmap", "force_unsel", "wwrap_unsel"]
+XLATE_PAIRS = [
+    ("right", "ctrl g"), ("left", "ctrl g"), ("up", "f8"), ("down", "f8"), ("right", "f8"), ("left", "q"),
+    ("tab", "right"), ("shift tab", "left"), ("tab", "down"), ("shift tab", "up"), ("enter", "down"), ("enter", "right"),
+    ("x", "up"), ("z", "left"), ("q", "right"), ("up", "left"), ("down", "right"), ("right", "down"), ("page down", "f8"),
+    ("home", "left"), ("end", "right"), ("j", "f8"), ("l", "ctrl g"),
+]  # fmt: skip
 CHAR_KEYS = ["x", "q", "z", "enter", " ", "j", "k", "h", "l", "f5", "esc"]
 
 
@@ -45,6 +51,12 @@ class Gen:
         if r.random() < 0.45:
             keys = sorted({r.choice(LEAF_KEYS) for _ in range(r.randint(1, 3))})
         node = {"k": "leaf", "mode": mode, "sid": sid, "sel": r.random() < 0.6, "keys": keys, "rows": r.choice([1, 1, 1, 2, 3])}
+        if r.random() < 0.22:
+            # key translation: given k the leaf returns k' (k' != k, k' not None), e.g. the 'tab' -> 'right' form idiom
+            node["xlate"] = dict(r.choice(XLATE_PAIRS) for _ in range(r.randint(1, 3)))
+            node["xlate"] = {k: v for k, v in node["xlate"].items() if k not in keys}
+            if not node["xlate"]:
+                del node["xlate"]
         x = r.random()
         if node["sel"] and x < 0.16:
             # unselectable only because of what is wrapped around a selectable widget
